@@ -4,8 +4,17 @@ Props/C18.lean — copy() yields an equal, fully independent, parentless object 
    overrides, lazily initialised styles.  Heap facts cannot be expressed in the list model: the
    copy oracle walks the reachable mutable-object graph of original and copy in the interpreter,
    checks disjointness and mutates each side. -/
+
+Notation (Lemmas/Copy.lean), for `s.copy o`:
+  `s.cnodes o`   the objects that are cloned: the fuel-bounded pre-order walk `s.subtree (s.n+1) o`
+                 over the `_children` lists (what `deepcopy(self)` reaches through `_children`)
+  `s.cren o x`   the id of the clone of `x`: `s.n + (position of x in s.cnodes o)` (deepcopy's memo)
+  `IsNew s o j`  `j` is one of the ids created by the copy: `s.n ≤ j < s.n + (s.cnodes o).length`
+Both models (`Forest.copy`/`stepC`, `addIterationSuffix`/`copyLabel`) are compared with the real
+`obj.copy()` / `add_iteration_suffix` on every run by the `forest` and `label` streams.
 -/
 import MagpyVerif.Model.Copy
+import MagpyVerif.Lemmas.Copy
 namespace MagpyVerif.C18
 open MagpyVerif Forest
 
@@ -47,5 +56,306 @@ theorem label_suffix_digits (pre : List Char) (ds : List Char) (hds : ds ≠ [])
   cases ds with
   | nil => exact absurd rfl hds
   | cons d rest => rfl
+
+
+/-! ### copy() is one more operation of the consistent-forest state machine (C11) -/
+
+/-- In a consistent, acyclic forest `obj.copy()` — of a leaf, of a collection with any nested
+subtree, owned by a parent or not — leaves a consistent (parent ⇔ listed exactly once, stored
+`_sources/_sensors/_collections` = ordered typed filters of `_children`, only collections have
+children, links stay among existing objects) and acyclic forest: the parent/children links of the
+copied subtree are consistent and the original's are untouched.  Acyclicity of the state before
+is needed (and is what C11 proves of every reachable state): `copy()` cuts the copy's `_parent`,
+so a clone of a cyclic structure would be listed by a collection that is not its parent. -/
+theorem copy_preserves_inv (s : Forest) (o : Nat) (hi : s.Inv) (ha : s.Acyclic) :
+    (s.copy o).Inv ∧ (s.copy o).Acyclic :=
+  ⟨copy_inv s hi ha o, copy_acyclic s hi ha o⟩
+
+/-- a consistent but cyclic state (collections 0 and 1 listing each other — unreachable by C11) -/
+def cyc : Forest :=
+  { n := 2, kind := fun _ => .coll,
+    parent := fun j => if j = 0 then some 1 else if j = 1 then some 0 else none,
+    children := fun j => if j = 0 then [1] else if j = 1 then [0] else [],
+    srcs := fun _ => [], sens := fun _ => [],
+    colls := fun j => if j = 0 then [1] else if j = 1 then [0] else [] }
+
+/-- the acyclicity hypothesis of `copy_preserves_inv` cannot be dropped: `cyc` satisfies every
+consistency clause, its copy does not (a clone is listed by a collection that is not its parent) -/
+theorem copy_needs_acyclic : cyc.Inv ∧ ¬ (cyc.copy 0).Inv := by
+  have hc : cyc.Inv := by
+    refine ⟨?_, ?_, ?_, ?_, ?_⟩
+    · intro o c
+      simp only [cyc]
+      split_ifs <;> simp_all <;> omega
+    · intro c
+      simp only [cyc]
+      split_ifs <;> simp
+    · intro c
+      simp only [cyc]
+      split_ifs <;> simp
+    · intro c h
+      simp [cyc] at h
+    · intro o c h
+      simp only [cyc] at h ⊢
+      split_ifs at h <;> simp_all <;> omega
+  refine ⟨hc, fun h => ?_⟩
+  have := (h.parent_iff 4 3).mp (by decide)
+  revert this
+  decide
+
+/-- every single step of a history with copies — tree-editing operation (accepted or rejected)
+or `copy()` — preserves consistency and acyclicity -/
+theorem stepC_preserves_inv (s : Forest) (op : COp) (hi : s.Inv) (ha : s.Acyclic) :
+    (s.stepC op).1.Inv ∧ (s.stepC op).1.Acyclic := stepC_inv_acyclic s op hi ha
+
+/-- C11 extended by C18: after any finite history of add / remove / parent= / children= /
+sources= / sensors= / collections= / `+` AND `copy()` of any object (original or clone; clones
+are ordinary objects for all later operations) the forest is consistent and acyclic. -/
+theorem inv_reachable_with_copy (kinds : List Kind) (ops : List COp) :
+    (ops.foldl (fun s op => (s.stepC op).1) (Forest.init kinds)).Inv ∧
+    (ops.foldl (fun s op => (s.stepC op).1) (Forest.init kinds)).Acyclic := by
+  suffices h : ∀ s : Forest, s.Inv → s.Acyclic →
+      (ops.foldl (fun s op => (s.stepC op).1) s).Inv ∧ (ops.foldl (fun s op => (s.stepC op).1) s).Acyclic from
+    h _ (init_inv kinds) (init_acyclic kinds)
+  induction ops with
+  | nil => intro s h1 h2; exact ⟨h1, h2⟩
+  | cons op ops ih =>
+    intro s h1 h2
+    exact ih _ (stepC_inv_acyclic s op h1 h2).1 (stepC_inv_acyclic s op h1 h2).2
+
+/-- the state used in the non-vacuity examples: collection 0 = [source 2, collection 1 = [sensor 3]] -/
+def demo : Forest :=
+  [COp.base (.add 1 [3] false), COp.base (.add 0 [2, 1] false)].foldl (fun s op => (s.stepC op).1)
+    (Forest.init [.coll, .coll, .src, .sens])
+
+theorem demo_inv : demo.Inv ∧ demo.Acyclic := inv_reachable_with_copy _ _
+
+-- non-vacuity: copying the nested collection 0 creates 4 objects; copying the owned collection 1 creates 2
+example : (demo.copy 0).Inv := (copy_preserves_inv demo 0 demo_inv.1 demo_inv.2).1
+example : (demo.copy 0).n = 8 ∧ (demo.copy 0).children 4 = [5, 6] ∧ (demo.copy 0).children 6 = [7] ∧
+    (demo.copy 0).parent 7 = some 6 ∧ (demo.copy 0).parent 4 = none := by decide
+example : demo.parent 1 = some 0 ∧ (demo.copy 1).parent 4 = none ∧ (demo.copy 1).children 4 = [5] ∧
+    (demo.copy 1).sens 4 = [5] ∧ (demo.copy 1).parent 5 = some 4 := by decide
+-- a history that copies, then edits the clone, then copies the clone
+example : ([COp.base (.add 0 [1] false), .copy 0, .base (.add 2 [0] false), .copy 2].foldl
+    (fun s op => (s.stepC op).1) (Forest.init [.coll, .src])).children 4 = [5, 6] := by decide
+
+/-! ### the copy is an isomorphic, parentless tree on fresh ids -/
+
+/-- `copy()` clones exactly the copied object and its descendants (through any depth of nested
+collections), each once; the renaming `cren` is a bijection from them onto the new ids; under it
+the class of every clone is the class of its original, the `_children` list of a clone is the list
+of the clones of the original's children IN THE SAME ORDER (and so are the stored `_sources`,
+`_sensors`, `_collections`), all those children are themselves cloned; the clone of the copied
+object is the first new id and has no parent; the parent of every other clone is the clone of its
+original's parent — i.e. the copy is an isomorphic parentless tree with consistent links. -/
+theorem copy_subtree_iso (s : Forest) (hi : s.Inv) (ha : s.Acyclic) (o : Nat) :
+    (∀ x, x ∈ s.cnodes o ↔ Reach s x o) ∧ (s.cnodes o).Nodup ∧
+    (∀ x ∈ s.cnodes o, IsNew s o (s.cren o x)) ∧
+    (∀ x ∈ s.cnodes o, ∀ y, s.cren o x = s.cren o y → x = y) ∧
+    (∀ j, IsNew s o j → ∃ x ∈ s.cnodes o, s.cren o x = j) ∧
+    (∀ x ∈ s.cnodes o,
+      (s.copy o).kind (s.cren o x) = s.kind x ∧
+      (s.copy o).children (s.cren o x) = (s.children x).map (s.cren o) ∧
+      (s.copy o).srcs (s.cren o x) = (s.srcs x).map (s.cren o) ∧
+      (s.copy o).sens (s.cren o x) = (s.sens x).map (s.cren o) ∧
+      (s.copy o).colls (s.cren o x) = (s.colls x).map (s.cren o) ∧
+      (∀ y ∈ s.children x, y ∈ s.cnodes o)) ∧
+    (s.cren o o = s.n ∧ (s.copy o).parent (s.cren o o) = none) ∧
+    (∀ x ∈ s.cnodes o, x ≠ o → ∃ p ∈ s.cnodes o, s.parent x = some p ∧
+      (s.copy o).parent (s.cren o x) = some (s.cren o p)) := by
+  refine ⟨mem_cnodes_iff s hi ha o, cnodes_nodup s hi ha o, cren_isNew s o, ?_, ?_, ?_, ?_, ?_⟩
+  · intro x hx y h; exact cren_inj s o x y hx h
+  · intro j hj
+    exact ⟨s.csrc o j, csrc_mem s o j hj, cren_csrc s o j (cnodes_nodup s hi ha o) hj⟩
+  · intro x hx
+    exact ⟨copy_kind_cren s o x hx, copy_children_cren s o x hx, copy_srcs_cren s o x hx,
+      copy_sens_cren s o x hx, copy_colls_cren s o x hx, fun y hy => cnodes_child s hi ha o x y hx hy⟩
+  · refine ⟨cren_root s o, ?_⟩
+    rw [copy_parent_cren s o o (root_mem_cnodes s o), if_pos rfl]
+  · intro x hx hne
+    obtain ⟨p, hp, hpm, hpc⟩ := copy_parent_cren_inner s hi ha o x hx hne
+    exact ⟨p, hpm, hp, hpc⟩
+
+-- non-vacuity: in `demo`, copying 0 clones [0, 2, 1, 3] (pre-order) onto 4, 5, 6, 7
+example : demo.cnodes 0 = [0, 2, 1, 3] ∧ demo.cren 0 1 = 6 ∧ demo.cren 0 3 = 7 := by decide
+
+/-- the renaming of `copy_root_children` is `cren` -/
+theorem cren_eq (s : Forest) (o x : Nat) : s.cren o x = s.n + (s.subtree (s.n + 1) o).idxOf x := rfl
+
+/-- Original and copy share no node: no existing object's `_children`, typed views or `_parent`
+mention a new id, and no clone's `_children`, typed views or `_parent` mention an existing object
+(so no later operation on one tree can reach the other through the links). -/
+theorem copy_shares_no_node (s : Forest) (hi : s.Inv) (o : Nat) :
+    (∀ j, j < s.n →
+      (∀ c ∈ (s.copy o).children j, c < s.n) ∧ (∀ c ∈ (s.copy o).srcs j, c < s.n) ∧
+      (∀ c ∈ (s.copy o).sens j, c < s.n) ∧ (∀ c ∈ (s.copy o).colls j, c < s.n) ∧
+      (∀ p, (s.copy o).parent j = some p → p < s.n)) ∧
+    (∀ j, IsNew s o j →
+      (∀ c ∈ (s.copy o).children j, s.n ≤ c) ∧ (∀ c ∈ (s.copy o).srcs j, s.n ≤ c) ∧
+      (∀ c ∈ (s.copy o).sens j, s.n ≤ c) ∧ (∀ c ∈ (s.copy o).colls j, s.n ≤ c) ∧
+      (∀ p, (s.copy o).parent j = some p → s.n ≤ p)) := by
+  constructor
+  · intro j hj
+    have hN := old_not_new s o j hj
+    rw [copy_children, copy_srcs, copy_sens, copy_colls, copy_parent, if_neg hN, if_neg hN, if_neg hN,
+      if_neg hN, if_neg hN]
+    have hch : ∀ c ∈ s.children j, c < s.n := fun c hc => (hi.inScope _ _ ((hi.parent_iff _ _).mpr hc)).2
+    obtain ⟨h1, h2, h3⟩ := hi.views j
+    refine ⟨hch, ?_, ?_, ?_, fun p hp => (hi.inScope _ _ hp).1⟩
+    · intro c hc; rw [h1] at hc; exact hch c (List.mem_of_mem_filter hc)
+    · intro c hc; rw [h2] at hc; exact hch c (List.mem_of_mem_filter hc)
+    · intro c hc; rw [h3] at hc; exact hch c (List.mem_of_mem_filter hc)
+  · intro j hj
+    rw [copy_children, copy_srcs, copy_sens, copy_colls, copy_parent, if_pos hj, if_pos hj, if_pos hj,
+      if_pos hj, if_pos hj]
+    have hm : ∀ (l : List Nat), ∀ c ∈ l.map (s.cren o), s.n ≤ c := by
+      intro l c hc
+      obtain ⟨z, _, rfl⟩ := List.mem_map.mp hc
+      exact cren_ge s o z
+    refine ⟨hm _, hm _, hm _, hm _, ?_⟩
+    intro p hp
+    split at hp
+    · cases hp
+    · cases hpar : s.parent (s.csrc o j) with
+      | none => rw [hpar] at hp; cases hp
+      | some q =>
+        rw [hpar] at hp
+        simp only [Option.map_some, Option.some.injEq] at hp
+        rw [← hp]; exact cren_ge s o q
+
+-- non-vacuity: the clone of the owned collection 1 of `demo` lists only new ids
+example : IsNew demo 1 4 ∧ (demo.copy 1).children 4 = [5] ∧ (demo.copy 1).children 0 = [2, 1] := by decide
+
+/-! ### `add_iteration_suffix`: full specification -/
+
+/-- every name splits, in exactly one way, into a part not ending in a digit and a (possibly
+empty) run of digits — so the two cases below cover every label, and nothing else applies -/
+theorem label_cases_exhaustive (name : List Char) :
+    ∃ pre ds, name = pre ++ ds ∧ (∀ c ∈ ds, isDigit c = true) ∧
+      (∀ c, pre.getLast? = some c → isDigit c = false) ∧
+      ∀ pre' ds', name = pre' ++ ds' → (∀ c ∈ ds', isDigit c = true) →
+        (∀ c, pre'.getLast? = some c → isDigit c = false) → pre' = pre ∧ ds' = ds := by
+  obtain ⟨h1, h2, h3⟩ := split_decomp name
+  refine ⟨_, _, h1, h2, h3, ?_⟩
+  intro pre' ds' h hd' hp'
+  exact split_unique pre' ds' _ _ hd' hp' h2 h3 (h ▸ h1)
+
+/-- no trailing digit (also: the empty label): `_01` is appended — only `01` when the name
+already ends in an underscore, so no doubled underscore is produced -/
+theorem label_no_trailing_digit (name : List Char) (h : ∀ c, name.getLast? = some c → isDigit c = false) :
+    addIterationSuffix name = name ++ (if name.getLast? = some '_' then [] else ['_']) ++ ['0', '1'] := by
+  have hs := split_append name [] (by simp) h
+  rw [List.append_nil] at hs
+  rw [addIterationSuffix_of_split name name [] hs, if_pos rfl]
+  rfl
+
+/-- a trailing digit run `ds` (maximal: `pre` does not end in a digit) of width `w` and value `k`
+is replaced by `k + 1` zero-padded to width `w`; everything before it is kept; no underscore added -/
+theorem label_trailing_digits (pre ds : List Char) (hds : ds ≠ []) (hd : ∀ c ∈ ds, isDigit c = true)
+    (hpre : ∀ c, pre.getLast? = some c → isDigit c = false) :
+    addIterationSuffix (pre ++ ds) = pre ++ padded (digitsToNat ds + 1) ds.length :=
+  label_suffix_digits pre ds hds (split_append pre ds hd hpre)
+
+/-- what `padded k w` (`f"{k:0{w}}"`) is: decimal digits only, of value `k`; exactly `w` of them
+while `k` fits into `w` digits, the plain numeral (no padding, more than `w` digits) once it does not -/
+theorem padded_spec (k w : Nat) (hw : 0 < w) :
+    (∀ c ∈ padded k w, isDigit c = true) ∧ digitsToNat (padded k w) = k ∧
+    (k < 10 ^ w → (padded k w).length = w) ∧ (10 ^ w ≤ k → padded k w = Nat.toDigits 10 k) :=
+  ⟨padded_all_digits k w, digitsToNat_padded k w, padded_length_of_lt k w hw, padded_of_ge k w hw⟩
+
+/-- the width is kept as long as the incremented number fits: the new label is exactly as long -/
+theorem label_width_kept (pre ds : List Char) (hds : ds ≠ []) (hd : ∀ c ∈ ds, isDigit c = true)
+    (hpre : ∀ c, pre.getLast? = some c → isDigit c = false) (hfit : digitsToNat ds + 1 < 10 ^ ds.length) :
+    (addIterationSuffix (pre ++ ds)).length = (pre ++ ds).length := by
+  rw [label_trailing_digits pre ds hds hd hpre, List.length_append, List.length_append,
+    padded_length_of_lt _ _ (List.length_pos_iff.mpr hds) hfit]
+
+/-- roll-over: a run of `w` nines (9, 99, 999, …) becomes `1` followed by `w` zeros — the label
+grows by one character (`x99 → x100`) -/
+theorem label_rollover (pre : List Char) (w : Nat) (hw : 0 < w)
+    (hpre : ∀ c, pre.getLast? = some c → isDigit c = false) :
+    addIterationSuffix (pre ++ List.replicate w '9') = pre ++ '1' :: List.replicate w '0' := by
+  have hne : List.replicate w '9' ≠ [] := by
+    intro h; have := congrArg List.length h; simp at this; omega
+  have hd : ∀ c ∈ List.replicate w '9', isDigit c = true := by
+    intro c hc; rw [(List.mem_replicate.mp hc).2]; decide
+  rw [label_trailing_digits pre _ hne hd hpre, digitsToNat_nines, List.length_replicate,
+    padded_of_ge _ _ hw (le_refl _), toDigits_pow]
+
+/-- the label is a counter: the number written by the trailing digits (0 if none) goes up by
+exactly one with every copy -/
+theorem label_counter (name : List Char) : labelValue (addIterationSuffix name) = labelValue name + 1 := by
+  obtain ⟨hname, hd, hpre⟩ := split_decomp name
+  generalize hsp : splitTrailingDigits name = r at hname hd hpre
+  obtain ⟨pre, ds⟩ := r
+  simp only at hname hd hpre
+  rw [addIterationSuffix_of_split name pre ds hsp]
+  have hv : labelValue name = digitsToNat ds := by unfold labelValue; rw [hsp]
+  rw [hv]
+  by_cases hds : ds = []
+  · subst hds
+    rw [if_pos rfl]
+    have hn : name = pre := by simpa using hname
+    subst hn
+    have hmid : ∀ c, (name ++ (if name.getLast? = some '_' then [] else ['_'])).getLast? = some c →
+        isDigit c = false := by
+      intro c hc
+      split at hc
+      · rename_i hl
+        rw [List.append_nil, hl] at hc
+        cases hc; decide
+      · simp at hc
+        subst hc; decide
+    unfold labelValue
+    rw [split_append _ _ (padded_all_digits 1 2) hmid]
+    rfl
+  · rw [if_neg hds]
+    unfold labelValue
+    rw [split_append pre _ (padded_all_digits _ _) hpre]
+    exact digitsToNat_padded _ _
+
+theorem labelValue_iterate (name : List Char) (i : Nat) :
+    labelValue (addIterationSuffix^[i] name) = labelValue name + i := by
+  induction i with
+  | zero => rfl
+  | succ i ih => rw [Function.iterate_succ_apply', label_counter, ih]; omega
+
+/-- not idempotent, never cyclic: the labels of a chain of copies `x, x.copy(), x.copy().copy(), …`
+are pairwise different -/
+theorem label_iterates_distinct (name : List Char) (i j : Nat) (h : i ≠ j) :
+    addIterationSuffix^[i] name ≠ addIterationSuffix^[j] name := by
+  intro he
+  have := congrArg labelValue he
+  rw [labelValue_iterate, labelValue_iterate] at this
+  omega
+
+/-- in particular: the iterated label differs from the original's, and applying it twice gives
+two further, different labels -/
+theorem label_twice_differs (name : List Char) :
+    addIterationSuffix name ≠ name ∧ addIterationSuffix (addIterationSuffix name) ≠ addIterationSuffix name ∧
+    addIterationSuffix (addIterationSuffix name) ≠ name :=
+  ⟨label_iterates_distinct name 1 0 (by decide), label_iterates_distinct name 2 1 (by decide),
+   label_iterates_distinct name 2 0 (by decide)⟩
+
+/-- the label written by `copy()`: none unless the original has a style object or style keyword
+arguments; `<ClassName>_01` for an unlabelled original; otherwise the iterated label, which is
+never the original's label -/
+theorem copy_label_spec (cls l : List Char) :
+    copyLabel cls false none = none ∧ copyLabel cls true none = some (cls ++ "_01".toList) ∧
+    copyLabel cls true (some l) = some (addIterationSuffix l) ∧ copyLabel cls true (some l) ≠ some l := by
+  refine ⟨rfl, rfl, rfl, ?_⟩
+  intro h
+  exact (label_twice_differs l).1 (Option.some.inj h)
+
+-- non-vacuity
+example : addIterationSuffix "".toList = "_01".toList := by decide
+example : addIterationSuffix "a__".toList = "a__01".toList := by decide
+example : addIterationSuffix "x9999".toList = "x10000".toList := by decide
+example : addIterationSuffix "0099".toList = "0100".toList := by decide
+example : addIterationSuffix "a1b007".toList = "a1b008".toList := by decide
+example : labelValue "col_02".toList = 2 ∧ labelValue "col".toList = 0 := by decide
+example : addIterationSuffix (addIterationSuffix "x99".toList) = "x101".toList := by decide
+example : copyLabel "Sensor".toList true none = some "Sensor_01".toList := by decide
 
 end MagpyVerif.C18
